@@ -83,6 +83,19 @@ def gen_field(kind, lv, f, idx, centres, seed=0):
         z = np.zeros(shape)
         z[(idx[0] + idx[1]) % 2 == 1] = -0.0
         return z
+    if kind == 'decay':
+        # sign-alternating values whose magnitude DEcreases with the level: the coarsest level holds the extrema
+        v = coded(0, f, idx, seed) / (16.0 ** lv)
+        s_ = idx[0]
+        for a in idx[1:]:
+            s_ = s_ + a
+        return np.broadcast_to(np.where(s_ % 2 == 0, v, -v), shape).copy()
+    if kind == 'boxcancel':
+        # constant per box, chosen so that the box sums cancel catastrophically: any regrouping of the
+        # additions over boxes changes the floating-point result
+        lo = [int(np.min(a)) for a in idx]
+        c = [1e16, 1.0, -1e16, 1.0, 3.0, -1e16, 1e16, 7.0][(lo[0] // 2 + 3 * (lo[1] // 2) + 5 * (lo[2] // 2 if len(lo) > 2 else 0) + lv) % 8]
+        return np.full(shape, c)
     if kind == 'one':
         return np.ones(shape)
     if kind == 'pos':
